@@ -118,6 +118,17 @@ func rewriteFile(p *packages.Package, f *ast.File, name string) error {
 	// R1 imports
 	for _, imp := range f.Imports {
 		path, _ := strconv.Unquote(imp.Path.Value)
+		if strings.HasPrefix(path, "golang.org/x/sync/") {
+			// every x/sync package is vendored into the scratch module and instrumented
+			pkg := strings.TrimPrefix(path, "golang.org/x/sync/")
+			imp.Path.Value = strconv.Quote(modPath + "/zsim/xsync/" + pkg)
+			if imp.Name == nil {
+				imp.Name = ast.NewIdent(pkg[strings.LastIndex(pkg, "/")+1:])
+			}
+			st.imports++
+			changed = true
+			continue
+		}
 		if to, ok := importMap[path]; ok {
 			imp.Path.Value = strconv.Quote(to)
 			if imp.Name == nil {
@@ -427,9 +438,19 @@ func (r *rewriter) goStmt(s *ast.GoStmt) ast.Stmt {
 	}
 	r.tmp++
 	var lhs, rhs []ast.Expr
-	fn := ast.NewIdent(fmt.Sprintf("__gof%d", r.tmp))
-	lhs = append(lhs, fn)
-	rhs = append(rhs, r.expr(call.Fun))
+	var fn ast.Expr = ast.NewIdent(fmt.Sprintf("__gof%d", r.tmp))
+	builtin := false
+	if id, ok := call.Fun.(*ast.Ident); ok {
+		if _, isBuiltin := r.pkg.TypesInfo.Uses[id].(*types.Builtin); isBuiltin {
+			builtin = true // go panic(x), go close(ch): a builtin is not a value
+		}
+	}
+	if builtin {
+		fn = call.Fun
+	} else {
+		lhs = append(lhs, fn)
+		rhs = append(rhs, r.expr(call.Fun))
+	}
 	var args []ast.Expr
 	for i, a := range call.Args {
 		if bl, ok := a.(*ast.BasicLit); ok {
@@ -450,10 +471,14 @@ func (r *rewriter) goStmt(s *ast.GoStmt) ast.Stmt {
 		inner.Ellipsis = 1
 	}
 	body := &ast.BlockStmt{List: []ast.Stmt{&ast.ExprStmt{X: inner}}}
+	goCall := &ast.ExprStmt{X: &ast.CallExpr{Fun: r.simrt("Go"), Args: []ast.Expr{
+		&ast.FuncLit{Type: &ast.FuncType{Params: &ast.FieldList{}}, Body: body}}}}
+	if len(lhs) == 0 {
+		return goCall
+	}
 	return &ast.BlockStmt{List: []ast.Stmt{
 		&ast.AssignStmt{Lhs: lhs, Tok: token.DEFINE, Rhs: rhs},
-		&ast.ExprStmt{X: &ast.CallExpr{Fun: r.simrt("Go"), Args: []ast.Expr{
-			&ast.FuncLit{Type: &ast.FuncType{Params: &ast.FieldList{}}, Body: body}}}},
+		goCall,
 	}}
 }
 
@@ -462,6 +487,29 @@ func (r *rewriter) rangeStmt(s *ast.RangeStmt) ast.Stmt {
 	tv, ok := r.pkg.TypesInfo.Types[s.X]
 	if !ok {
 		return s
+	}
+	if _, isChan := tv.Type.Underlying().(*types.Chan); isChan {
+		// for v := range ch { body }  ->  for { v, ok := simrt.Recv2(ch); if !ok { break }; body }
+		st.recvs++
+		r.tmp++
+		okID := ast.NewIdent(fmt.Sprintf("__ok%d", r.tmp))
+		var lhs0 ast.Expr = ast.NewIdent("_")
+		tok := token.DEFINE
+		if s.Key != nil && !isBlank(s.Key) {
+			lhs0 = s.Key
+			tok = s.Tok
+		}
+		var pre []ast.Stmt
+		if tok == token.ASSIGN {
+			// v is an existing variable: declare ok separately
+			pre = append(pre,
+				&ast.DeclStmt{Decl: &ast.GenDecl{Tok: token.VAR, Specs: []ast.Spec{&ast.ValueSpec{Names: []*ast.Ident{okID}, Type: ast.NewIdent("bool")}}}},
+				&ast.AssignStmt{Lhs: []ast.Expr{lhs0, okID}, Tok: token.ASSIGN, Rhs: []ast.Expr{&ast.CallExpr{Fun: r.simrt("Recv2"), Args: []ast.Expr{s.X}}}})
+		} else {
+			pre = append(pre, &ast.AssignStmt{Lhs: []ast.Expr{lhs0, okID}, Tok: token.DEFINE, Rhs: []ast.Expr{&ast.CallExpr{Fun: r.simrt("Recv2"), Args: []ast.Expr{s.X}}}})
+		}
+		pre = append(pre, &ast.IfStmt{Cond: &ast.UnaryExpr{Op: token.NOT, X: okID}, Body: &ast.BlockStmt{List: []ast.Stmt{&ast.BranchStmt{Tok: token.BREAK}}}})
+		return &ast.ForStmt{Body: &ast.BlockStmt{List: append(pre, s.Body.List...)}}
 	}
 	if _, isMap := tv.Type.Underlying().(*types.Map); !isMap {
 		// type parameters with a map core type
